@@ -19,6 +19,17 @@ def model_of(ns, fn):
         return f'@Sm9.G2Prepared.{fn}_' if fn == 'from' else f'@Sm9.G2Prepared.{fn}'
     if ns == 'Pairings':
         return '@Sm9.bit' if fn == 'bit' else f'@Sm9.Pairings.{fn}'
+    if ns in ('LibG1', 'LibG2'):
+        g = 'g1' if ns == 'LibG1' else 'g2'
+        F = 'Fq' if ns == 'LibG1' else 'Fq2'
+        if fn == 'normalize':
+            return f'@Sm9.Api.normalize {F} _'
+        camel = ''.join(w.capitalize() for w in fn.split('_'))
+        return f'@Sm9.Api.{g}{camel}'
+    if ns == 'LibG2Prepared':
+        return {'from': '@Sm9.Api.prepare', 'pairing': '@Sm9.Api.preparedPairing'}.get(fn)
+    if ns == 'Lib':
+        return f'@Sm9.Api.{fn}'
     if ns in ('AffineG1', 'AffineG2'):
         F = 'Fq' if ns == 'AffineG1' else 'Fq2'
         return f'@Sm9.AffineG.{fn} {F} _ _' if fn == 'new' else f'@Sm9.AffineG.{fn} {F} _'
@@ -87,7 +98,97 @@ MILLER_PROOF = """
     rfl
   · simp only [↓reduceIte]; rfl"""
 
+def lib_proofs(ns):
+    one = ns == 'LibG1'
+    g = 'g1' if one else 'g2'
+    el = 32 if one else 64                      # bytes per coordinate
+    toS = 'Api.fqToSlice' if one else 'Api.fq2ToSlice'
+    toSlen = 'Api.fqToSlice_length' if one else 'Api.fq2ToSlice_length'
+    fromS = 'Api.fqFromSliceStrict' if one else 'Api.fq2FromSlice'
+    even = 'y.is_even' if one else 'Api.fq2IsEven y'
+    aeven = 'a.y.is_even' if one else 'Api.fq2IsEven a.y'
+    B = 'Api.g1B' if one else 'Api.g2B'
+    P = {}
+    P['normalize'] = f'''
+  funext p; unfold Sm9.Gen.{ns}.normalize Api.normalize; cases p.to_affine <;> rfl'''
+    P['from_slice'] = f'''
+  funext bs
+  unfold Sm9.Gen.{ns}.from_slice Sm9.Api.{g}FromSlice
+  simp only [liftNew_eq]
+  by_cases h : bs.length = {2*el}
+  · simp only [h, decide_true, Bool.not_true, Bool.false_eq_true, if_false, ne_eq, not_true_eq_false]
+    cases {fromS} (bs.take {el}) <;> cases {fromS} (bs.drop {el}) <;> rfl
+  · simp [h]'''
+    P['from_uncompressed'] = f'''
+  funext bs
+  unfold Sm9.Gen.{ns}.from_uncompressed Sm9.Api.{g}FromUncompressed
+  cases bs with
+  | nil => rfl
+  | cons b t =>
+    by_cases hb : b = 4
+    · subst hb; by_cases h : t.length + 1 = {2*el+1} <;> simp [h]
+    · have h4 : b.toNat ≠ 4 := u8_ne_toNat b 4 hb
+      simp [hb, h4]'''
+    P['from_compressed'] = f'''
+  funext bs
+  unfold Sm9.Gen.{ns}.from_compressed Sm9.Api.{g}FromCompressed
+  simp only [liftNew_eq, and_one_eq]
+  by_cases h : bs.length = {el+1}
+  · simp only [h, decide_true, Bool.not_true, Bool.false_eq_true, if_false, ne_eq, not_true_eq_false]
+    have e0 : (bs.getD 0 0) = bs.headD 0 := by cases bs <;> rfl
+    rw [e0]
+    generalize (bs.headD 0).toNat = sign
+    by_cases hs : sign ≠ 2 ∧ sign ≠ 3
+    · simp [hs.1, hs.2]
+    · have hs' : ¬(((!decide (sign = 2)) && (!decide (sign = 3))) = true) := by simpa using hs
+      simp only [hs, hs', if_false]
+      cases {fromS} (bs.drop 1) with
+      | none => rfl
+      | some x =>
+        simp only []
+        cases (x * x * x + {B}).sqrt with
+        | none => rfl
+        | some y =>
+          cases (sign % 2 == 0) <;> cases {even} <;> rfl
+  · simp [h]'''
+    P['to_slice'] = f'''
+  funext p
+  unfold Sm9.Gen.{ns}.to_slice Sm9.Api.{g}ToSlice
+  cases p.to_affine with
+  | none => rfl
+  | some a =>
+    simp only [Outcome.unwrap, bind, Outcome.bind]
+    rw [sliceCopy_mid _ _ 0 {el} (by omega) (by simp) (by simp [{toSlen}])]
+    simp only [Outcome.bind]
+    rw [sliceCopy_tail _ _ {el} (by simp [{toSlen}])]
+    simp [{toSlen}]'''
+    P['to_uncompressed'] = f'''
+  funext p
+  unfold Sm9.Gen.{ns}.to_uncompressed Sm9.Api.{g}ToUncompressed
+  cases h : Api.{g}ToSlice p with
+  | panic => simp only [bind, Outcome.bind]
+  | ok s =>
+    have hl : s.length = {2*el} := by
+      unfold Api.{g}ToSlice at h
+      cases hp : p.to_affine with
+      | none => rw [hp] at h; cases h
+      | some a => rw [hp] at h; cases h; simp [{toSlen}]
+    simp only [bind, Outcome.bind, pure]
+    rw [sliceCopy_tail _ _ 1 (by simp [hl])]
+    rfl'''
+    P['to_compressed'] = f'''
+  funext p
+  unfold Sm9.Gen.{ns}.to_compressed Sm9.Api.{g}ToCompressed
+  cases p.to_affine with
+  | none => rfl
+  | some a =>
+    simp only [Outcome.unwrap, bind, Outcome.bind]
+    rw [sliceCopy_tail _ _ 1 (by cases {aeven} <;> simp [{toSlen}])]
+    cases {aeven} <;> rfl'''
+    return {f'{ns}.{k}': v for k, v in P.items()}
+
 SPECIAL = {
+    **lib_proofs('LibG1'), **lib_proofs('LibG2'),
     'Pairings.bit': 'funext n pos; exact bit_equiv n pos',
     'G2Prepared.from': FROM_PROOF,
     'G2Prepared.miller_loop': MILLER_PROOF,
@@ -97,7 +198,7 @@ SPECIAL = {
     'G2.to_affine': 'to_affine_equiv Sm9.Gen.G2.to_affine',
 }
 
-def main(gen_dir):
+def main(gen_dir, exclude=()):
     rep = json.load(open(os.path.join(gen_dir, 'rs2lean_report.json')))
     L = ['-- GENERATED by tools/gen_equiv.py on every run — do not edit.',
          'import Sm9.Gen.Rust', 'import Sm9.Gen.EquivTactics',
@@ -112,6 +213,9 @@ def main(gen_dir):
         if fn == 'frobenius_map':
             for k in FROB[ns]:
                 nm = f'{ns}_frob{k}'
+                if nm in exclude:
+                    L.append(f'-- {nm}: did not check on this run')
+                    continue
                 L.append(f'theorem {nm} : @Sm9.Gen.{ns}.frob{k} = @Sm9.{ns}.frob{k} := by equiv_tac Sm9.Gen.{ns}.frob{k} Sm9.{ns}.frob{k}')
                 names.append(nm)
             continue
@@ -119,6 +223,9 @@ def main(gen_dir):
         if m is None:
             continue
         nm = f'{ns}_{fn}'
+        if nm in exclude:
+            L.append(f'-- {nm}: did not check on this run (left out so that the other theorems can be audited)')
+            continue
         fnl = fn + '_' if fn in ('from', 'at', 'by') else fn
         if key == 'G2Prepared.get_fq12':
             # `&self` is an unused parameter in Rust; the model drops it
@@ -140,4 +247,4 @@ def main(gen_dir):
     print(json.dumps({'equiv_theorems': len(names)}))
 
 if __name__ == '__main__':
-    main(sys.argv[1])
+    main(sys.argv[1], set(sys.argv[2].split(',')) if len(sys.argv) > 2 and sys.argv[2] else ())
